@@ -82,7 +82,18 @@ class Env:
         """-> ("ok", (args, kwargs, flags)) | ("exc", class name, message)"""
         self.box.clear()
         try:
-            self.Template(source).render(self.Context(dict(ctxd)))
+            t = self.Template(source)
+            # every other compiled template is first rendered with ANOTHER context: a node renders many times in its life
+            # (loops, repeated requests) and each time its arguments denote the values of THAT context
+            self.nrun = getattr(self, "nrun", 0) + 1
+            if self.nrun % 2 == 0:
+                decoy = next(c for c in tg.CONTEXTS if c is not ctxd and c != {k: v for k, v in ctxd.items() if k in c})
+                try:
+                    t.render(self.Context(dict(decoy)))
+                except Exception:  # noqa: BLE001
+                    pass
+                self.box.clear()
+            t.render(self.Context(dict(ctxd)))
         except Exception as e:  # noqa: BLE001
             return ("exc", type(e).__name__, str(e)[:300])
         if len(self.box) != 1:
@@ -291,6 +302,7 @@ def shard_invalid(env, spec, rec):
 
 def replay(case, rec):
     env = Env()
+    env.nrun = 1  # the replayed source is rendered with the decoy context first (see run_source)
     rec.case(("replay", 1))
     rec.case(("replay", 2))
     rec.observe("reference-evaluations")
